@@ -91,9 +91,9 @@ def run(v, tier, seed):
         first = [l.strip() for i, l in zip(range(16), open(tr))]
         return (vlib.read_ndjson(rep), accepted, maxline, tr, first), None
 
-    def stress(seconds, nt):
-        rep = W("stress%d.ndjson" % nt)
-        code, out, err = vlib.run([rc_plain, "stress", str(seconds), str(nt), str(seed), rep], timeout=seconds + 120)
+    def stress(seconds, nt, mode="stress"):
+        rep = W("%s%d.ndjson" % (mode, nt))
+        code, out, err = vlib.run([rc_plain, mode, str(seconds), str(nt), str(seed), rep], timeout=seconds + 120)
         if code != 0:
             vlib.harness_failed(v, code, out, err, "rc stress (free-running threads)", "stress")
             return [{"summary": True, "rounds": 0}]
@@ -103,7 +103,7 @@ def run(v, tier, seed):
     with cf.ThreadPoolExecutor(max_workers=6) as ex:
         jobs = [ex.submit(ref_mc, 2, 3), ex.submit(chain_mc, 7 if tier == "quick" else 9)] + ([ex.submit(ref_mc, 3, 3)] if tier == "thorough" else [])
         pools = [ex.submit(pool, n, mp) for (n, mp) in ([(2, 0), (2, 1), (2, 3), (3, 2)] if tier == "quick" else [(2, 0), (2, 1), (2, 3), (3, 0), (3, 2), (3, 4)])]
-        f_sts = [ex.submit(stress, 3 if tier == "quick" else 60, nt) for nt in (2, 3)]
+        f_sts = [ex.submit(stress, 3 if tier == "quick" else 60, nt) for nt in (2, 3)] + [ex.submit(stress, 3 if tier == "quick" else 60, nt, "churn") for nt in (2, 6)]
         f_exs = [ex.submit(explore, iters, 3 if tier == "quick" else 4, 14, 500 if tier == "quick" else 4000),
                  ex.submit(explore, iters, 1, 30, 300 if tier == "quick" else 3000)]      # one thread: chains of objects (member Refs), Link / Pop
         for f in jobs:
